@@ -18,7 +18,7 @@ What is modelled
 What is not modelled
 * `_link_id` (random, not part of `==` or of the hash), `_ansi` (C03), rendering, `get_html_style`;
 * `functools.lru_cache` on `parse` / `normalize` (assumed transparent);
-* text outside ASCII (see Model/ColorParse.lean: the driver answers `unmodelled`).
+* `str.lower()` of a string containing GREEK CAPITAL SIGMA (see Model/ColorParse.lean).
 
 `NULL_STYLE` is one shared object per process; the first `str()` of it fills its `_style_definition`
 with "none" for good.  The model represents it in that absorbing state (`Style.null`); the harness
@@ -74,6 +74,13 @@ def linkOr (x y : Option (List Char)) : Option (List Char) := if strTruthy x the
 
 namespace Style
 
+/-- `""` and `None` both mean "no link": the link with the empty string read as `None`. -/
+def linkVal (l : Option (List Char)) : Option (List Char) := if strTruthy l then l else none
+
+/-- The link `__init__` / `update_link` store: as given (rich 9.10.0), or `link or None` (repaired). -/
+def storedLink (v : StyleVariant) (l : Option (List Char)) : Option (List Char) :=
+  if v.emptyLink then l else linkVal l
+
 /-- The tuple `__init__` hashes, recomputed from the current fields. -/
 def fieldsKey (s : Style) : HashKey :=
   ⟨s.color, s.bgcolor, some s.attributes, some s.setAttributes, s.link⟩
@@ -108,8 +115,8 @@ inductive ColorArg where
 deriving Repr, BEq, DecidableEq
 
 /-- `_make_color` (style.py:116). -/
-def makeColor (v : StyleVariant) : ColorArg → Except StyleErr Color
-  | .str s => Color.parse v s
+def makeColorT (T : StrTables) (v : StyleVariant) : ColorArg → Except StyleErr Color
+  | .str s => Color.parseT T v s
   | .color c => .ok c
 
 /-- Little-endian bits to number: `sum(b0 and 1, b1 and 2, b2 and 4, …)`. -/
@@ -129,22 +136,27 @@ def kwVal (kw : Kwargs) : Nat :=
   bitsToNat ((List.range 13).map fun i => kw.getD i none == some true)
 
 /-- `Style.__init__` (style.py:93-171).  `color` is evaluated before `bgcolor`. -/
-def init (v : StyleVariant) (color bgcolor : Option ColorArg) (kw : Kwargs) (link : Option (List Char)) :
-    Except StyleErr Style :=
-  match (match color with | none => Except.ok none | some c => (makeColor v c).map some) with
+def initT (T : StrTables) (v : StyleVariant) (color bgcolor : Option ColorArg) (kw : Kwargs)
+    (link : Option (List Char)) : Except StyleErr Style :=
+  match (match color with | none => Except.ok none | some c => (makeColorT T v c).map some) with
   | .error e => .error e
   | .ok c =>
-    match (match bgcolor with | none => Except.ok none | some b => (makeColor v b).map some) with
+    match (match bgcolor with | none => Except.ok none | some b => (makeColorT T v b).map some) with
     | .error e => .error e
     | .ok b =>
       let setA := kwSet kw
       let attrs := if setA ≠ 0 then kwVal kw else 0
+      let link := storedLink v link
       .ok { color := c, bgcolor := b, attributes := attrs, setAttributes := setA, link := link,
             hash := ⟨c, b, some attrs, some setA, link⟩,
             -- `not (self._set_attributes or color or bgcolor or link)`: a colour argument that got
             -- this far is truthy (a Color tuple, or a non-empty string)
             isNull := !(setA ≠ 0 || color.isSome || bgcolor.isSome || strTruthy link),
             styleDef := none }
+
+/-- `Style.__init__` on ASCII text (the instance other models use). -/
+abbrev init (v : StyleVariant) (color bgcolor : Option ColorArg) (kw : Kwargs) (link : Option (List Char)) :
+    Except StyleErr Style := initT StrTables.ascii v color bgcolor kw link
 
 /-- `Style.from_color` (style.py:178-205). -/
 def fromColor (v : StyleVariant) (color bgcolor : Option Color) : Style :=
@@ -183,6 +195,7 @@ def copy (s : Style) : Style :=
 
 /-- `Style.update_link` (style.py:577-597). -/
 def updateLink (v : StyleVariant) (s : Style) (link : Option (List Char)) : Style :=
+  let link := storedLink v link
   { color := s.color, bgcolor := s.bgcolor, attributes := s.attributes, setAttributes := s.setAttributes,
     link := link,
     hash := if v.updateLinkHash then s.hash
@@ -271,52 +284,58 @@ structure ParseState where
 deriving Repr, BEq, DecidableEq
 
 /-- The loop of `Style.parse` (style.py:450-490); `next(words, "")` consumes the following word. -/
-def parseLoop (v : StyleVariant) : List (List Char) → ParseState → Except StyleErr ParseState
+def parseLoopT (T : StrTables) (v : StyleVariant) : List (List Char) → ParseState → Except StyleErr ParseState
   | [], st => .ok st
   | originalWord :: rest, st =>
-    let word := lower originalWord
+    let word := T.lower originalWord
     if word == cl! "on" then
       match rest with
       | [] => .error .styleSyntax                       -- `next(words, "")` is "" : "color expected after 'on'"
       | w :: rest' =>
-        match Color.parse v w with
+        match Color.parseT T v w with
         | .error .colorParse => .error .styleSyntax
         | .error e => .error e                            -- anything else (ValueError) is not caught
-        | .ok _ => parseLoop v rest' { st with bgcolor := some w }
+        | .ok _ => parseLoopT T v rest' { st with bgcolor := some w }
     else if word == cl! "not" then
       match rest with
       | [] => .error .styleSyntax                       -- `style_attributes.get("")` is None
       | w :: rest' =>
         match attrIndex w with                           -- NB: `w` is not lower-cased
         | none => .error .styleSyntax
-        | some i => parseLoop v rest' { st with attributes := st.attributes.set i (some false) }
+        | some i => parseLoopT T v rest' { st with attributes := st.attributes.set i (some false) }
     else if word == cl! "link" then
       match rest with
       | [] => .error .styleSyntax
-      | w :: rest' => parseLoop v rest' { st with link := some w }
+      | w :: rest' => parseLoopT T v rest' { st with link := some w }
     else
       match attrIndex word with
-      | some i => parseLoop v rest { st with attributes := st.attributes.set i (some true) }
+      | some i => parseLoopT T v rest { st with attributes := st.attributes.set i (some true) }
       | none =>
-        match Color.parse v word with
+        match Color.parseT T v word with
         | .error .colorParse => .error .styleSyntax
         | .error e => .error e
-        | .ok _ => parseLoop v rest { st with color := some word }
+        | .ok _ => parseLoopT T v rest { st with color := some word }
 
 /-- `Style.parse(style_definition)` (style.py:404-492), without the (transparent) `lru_cache`. -/
-def parse (v : StyleVariant) (styleDefinition : List Char) : Except StyleErr Style :=
-  if strip styleDefinition == cl! "none" || styleDefinition.isEmpty then .ok Style.null
+def parseT (T : StrTables) (v : StyleVariant) (styleDefinition : List Char) : Except StyleErr Style :=
+  if T.strip styleDefinition == cl! "none" || styleDefinition.isEmpty then .ok Style.null
   else
-    match parseLoop v (split styleDefinition) {} with
+    match parseLoopT T v (T.split styleDefinition) {} with
     | .error e => .error e
-    | .ok st => init v (st.color.map .str) (st.bgcolor.map .str) st.attributes st.link
+    | .ok st => initT T v (st.color.map .str) (st.bgcolor.map .str) st.attributes st.link
 
 /-- `Style.normalize(style)` (style.py:318-333): only `StyleSyntaxError` is caught. -/
-def normalize (v : StyleVariant) (style : List Char) : Except StyleErr (List Char) :=
-  match parse v style with
+def normalizeT (T : StrTables) (v : StyleVariant) (style : List Char) : Except StyleErr (List Char) :=
+  match parseT T v style with
   | .ok s => .ok (str s)
-  | .error .styleSyntax => .ok (lower (strip style))
+  | .error .styleSyntax => .ok (T.lower (T.strip style))
   | .error e => .error e
+
+/-- `Style.parse` / `Style.normalize` on ASCII text (the instances other models use). -/
+abbrev parse (v : StyleVariant) (styleDefinition : List Char) : Except StyleErr Style :=
+  parseT StrTables.ascii v styleDefinition
+abbrev normalize (v : StyleVariant) (style : List Char) : Except StyleErr (List Char) :=
+  normalizeT StrTables.ascii v style
 
 /-! ### well-formedness: the styles whose string form parses back to themselves
 
@@ -325,26 +344,26 @@ the grammar of style definitions cannot express: a link that is empty or contain
 colour whose name is not a definition of that very colour (e.g. a down-converted colour, which keeps
 its name but changes its type), attribute bits outside the 13 known ones. -/
 
-/-- No `str.isspace` character. -/
-def noSpace (s : List Char) : Bool := s.all fun c => !isSpace c
-
 /-- The colour's name is white-space free and is a definition of this very colour. -/
-def wfColor (v : StyleVariant) (c : Color) : Bool :=
-  noSpace c.name &&
-    match Color.parse v c.name with
+def wfColorT (T : StrTables) (v : StyleVariant) (c : Color) : Bool :=
+  T.noSpace c.name &&
+    match Color.parseT T v c.name with
     | .ok c' => decide (c' = c)
     | .error _ => false
 
 /-- `None`, or a non-empty word. -/
-def wfLink : Option (List Char) → Bool
+def wfLinkT (T : StrTables) : Option (List Char) → Bool
   | none => true
-  | some l => !l.isEmpty && noSpace l
+  | some l => !l.isEmpty && T.noSpace l
 
-def wf (v : StyleVariant) (s : Style) : Bool :=
+def wfT (T : StrTables) (v : StyleVariant) (s : Style) : Bool :=
   decide (s.attributes &&& s.setAttributes = s.attributes) && decide (s.setAttributes < 8192) &&
-    (match s.color with | none => true | some c => wfColor v c) &&
-    (match s.bgcolor with | none => true | some c => wfColor v c) &&
-    wfLink s.link
+    (match s.color with | none => true | some c => wfColorT T v c) &&
+    (match s.bgcolor with | none => true | some c => wfColorT T v c) &&
+    wfLinkT T s.link
+
+/-- Well-formedness on ASCII text. -/
+abbrev wf (v : StyleVariant) (s : Style) : Bool := wfT StrTables.ascii v s
 
 end Style
 end RichModel
